@@ -174,7 +174,8 @@ class HeaderObject(BaseObject):
         return data
 
     def parse(self, asf, data):
-        raise NotImplementedError
+        # only valid as the outermost object (see parse_full)
+        raise ASFHeaderError("nested header object")
 
     def render(self, asf):
         raise NotImplementedError
